@@ -5,7 +5,7 @@
    Spec: Spec/Place.v ([Feasible], [wf_problem] = the documented domain, [consistent]). *)
 From Coq Require Import ZArith List Bool.
 Require Import Rig.Model.Base Rig.Model.Place Rig.Spec.Place Rig.Proofs.Place Rig.Proofs.PlaceCore
-        Rig.Proofs.PlaceMerge Rig.Proofs.PlaceSeq Rig.Proofs.PlaceComplete.
+        Rig.Proofs.PlaceMerge Rig.Proofs.PlaceSeq Rig.Proofs.PlaceComplete Rig.Proofs.PlaceSA.
 Import ListNotations.
 Open Scope Z_scope.
 
@@ -71,6 +71,49 @@ Theorem C02_rand_place_terminates :
   forall vr m cs oracle,
     (length vr + length (raster m) <= length oracle)%nat -> rand_place vr m cs oracle <> OutOfFuel.
 Proof. exact rand_place_terminates. Qed.
+
+(* U -- simulated annealing (sa/algorithm.py with the Python kernel; shuffles, the draws of every swap
+   attempt and the accept decisions are explicit oracle inputs).
+   (a) when no annealing is done (effort 0, no nets, a single chip, ...) the initial placement is returned:
+       it is feasible, for all shuffles;
+   (b) one swap attempt (python_kernel._step: candidate selection, swap, possible revert) preserves the
+       state invariant SAInv (free-resource bookkeeping <= capacity - reservations - load, non-negative free
+       resources, fixed vertices in place, l2v consistent), for every draw and accept decision;
+   (c) for ANY kernel: the state prepared by place() satisfies SAInv and the placement of every state
+       satisfying SAInv expands to a feasible placement of the original problem.  Hence a kernel whose
+       run_steps preserves SAInv -- the Python kernel does, by (b) -- gives a feasible answer whatever
+       temperatures, distance limits and step counts the schedule produces.
+   NOT modelled: the float-valued temperature loop of place() (its termination is observed per case under an
+   alarm, not proved) and the C kernel rig_c_sa (validated per output by C02_check_placement_sound only). *)
+Theorem C02_sa_trivial_sound :
+  forall vr m cs loc_picks vertex_picks pl,
+    wf_problem vr m cs -> consistent cs ->
+    sa_place_trivial vr m cs loc_picks vertex_picks = Ok pl -> Feasible vr m cs pl.
+Proof. exact sa_trivial_sound. Qed.
+
+Theorem C02_sa_step_preserves_invariant :
+  forall vr m0 cs fixed s src dst accept s' kept,
+    wf_core vr m0 -> SAInv vr m0 cs fixed s ->
+    sa_step vr fixed s src dst accept = Ok (s', kept) ->
+    SAInv vr m0 cs fixed s'.
+Proof. exact sa_step_preserves. Qed.
+
+Theorem C02_anneal_result_feasible :
+  forall vr m cs loc_picks vertex_picks s0,
+    wf_problem vr m cs -> consistent cs -> sa_prepare vr m cs loc_picks vertex_picks = Ok s0 ->
+    exists cs1,
+      wf_core (ss_vr s0) m
+      /\ SAInv (ss_vr s0) m cs1 (map fst (ss_fixed s0)) (sa_init_state s0)
+      /\ forall s, SAInv (ss_vr s0) m cs1 (map fst (ss_fixed s0)) s ->
+                   exists pl, finalise (rev (ss_subs s0)) (st_pl s) = Ok pl /\ Feasible vr m cs pl.
+Proof. exact anneal_result_feasible. Qed.
+
+Theorem C02_sa_python_kernel_feasible :
+  forall vr m cs loc_picks vertex_picks s0 draws s,
+    wf_problem vr m cs -> consistent cs -> sa_prepare vr m cs loc_picks vertex_picks = Ok s0 ->
+    sa_steps (ss_vr s0) (map fst (ss_fixed s0)) (sa_init_state s0) draws = Ok s ->
+    exists pl, finalise (rev (ss_subs s0)) (st_pl s) = Ok pl /\ Feasible vr m cs pl.
+Proof. exact sa_python_kernel_feasible. Qed.
 
 (* Non-vacuity: a problem with a same-chip group, a location constraint on a member of the group, a global
    reservation and a resource exception meets the hypotheses, and both placers succeed on it. *)
